@@ -70,7 +70,7 @@ def build(df, f, aux, vs):
     if f["hasmap"]:
         mapping = {labels[c]: (dims[f["map"][c] - 1] if f["map"][c] else None) for c in range(nv)}
         mapping = fldmod.scramble(mapping, sum(m["n"]) + nv + len(str(f["map"])))
-    field = df.Field(mesh, nvdim=nv, value=arr, vdims=labels, valid=valid, vdim_mapping=mapping)
+    field = fldmod.labelled_field(df, mesh, nv, arr, labels, mapping, sum(m["n"]) + nv + sum(f["map"]) if f["hasmap"] else 1, valid=valid)
     afield = None
     if aux["kind"] != "none":
         am = {"lo": m["lo"], "n": aux["n"], "c": [m["c"][d] * m["n"][d] // aux["n"][d] for d in range(len(m["n"]))]}
